@@ -28,7 +28,7 @@ pub fn prop() -> Prop {
 }
 
 pub fn opts() -> RunOpts {
-    RunOpts { budget: Some(crate::outcome::QUICK_BUDGET), ledger: true, trace: true }
+    RunOpts { budget: Some(crate::outcome::QUICK_BUDGET), ledger: true, trace: true, render: true }
 }
 
 pub fn opcode_names() -> Vec<String> {
@@ -46,7 +46,7 @@ fn run(sh: &mut Shard) {
         let t = text.clone();
         sh.begin(&|| t.clone());
         sh.count("slice:corpus");
-        if let Some(r) = differential_text(sh, "semantics", &text, None, RunOpts { budget: Some(50_000_000), ledger: true, trace: false }) {
+        if let Some(r) = differential_text(sh, "semantics", &text, None, RunOpts { budget: Some(50_000_000), ledger: true, trace: false, render: true }) {
             if !matches!(r.model.end, End::Unspec(_) | End::Diverge) {
                 sh.nontrivial(&text);
             }
@@ -88,7 +88,7 @@ fn run(sh: &mut Shard) {
 fn replay(sh: &mut Shard, case: &Value) {
     sh.mine();
     if let Some(p) = case["program"].as_str() {
-        differential_text(sh, "semantics", p, None, RunOpts { budget: Some(50_000_000), ledger: true, trace: false });
+        differential_text(sh, "semantics", p, None, RunOpts { budget: Some(50_000_000), ledger: true, trace: false, render: true });
     }
 }
 
